@@ -138,6 +138,9 @@ func c06Check(in []byte, dirty *[]byte) (info c06Info, err error) {
 }
 
 func CheckC06(c *core.Case) error {
+	if c.Kind == "cold" {
+		return checkCold(c)
+	}
 	dirty := []byte("dirty \\ \" scratch 0123456789 \xff")
 	_, err := c06Check(inputOf(c), &dirty)
 	return err
